@@ -297,3 +297,6 @@ def check(run, prog, tier):
         run.ob("C02-h", "dirty-mask:%s:%d" % (f.name, j), ok, "dirty-list insertion at line %s is taken for token & 0x%x; permanent identifiers are created with bits 0x%x" % (n.get("l"), mask, perm_bits) if ok else
                "dirty-list insertion at line %s only for token & 0x%x, but permanent identifiers also carry 0x%x: redefining such a name (e.g. a simul efun) in one file leaves its function/global/class number set for every later compilation" % (n.get("l"), mask, perm_bits & ~mask),
                f.file, n.get("l"), f.name, what="%s does not track every kind of permanent identifier on the dirty list (missing bits 0x%x)" % (f.name, perm_bits & ~mask))
+
+    import rules.C02i as c02i
+    c02i.check(run, prog, tier)
